@@ -172,7 +172,7 @@ func checkC13(c C13Case) *Violation {
 			if mustAccept {
 				return vio("listed-key-rejected", "`crd info key describe --key %s` fails: %s", k, firstLines(res.Stderr, 2))
 			}
-			return nil
+			return checkKeyWritten(k, key, mustAccept, mustReject)
 		}
 		if mustReject {
 			return vio("impossible-key-accepted", "%s would need %d accidentals but is accepted", k, key.Sig())
@@ -194,6 +194,9 @@ func checkC13(c C13Case) *Violation {
 			}
 		} else if theory.IsListed(rel.String()) {
 			return vio("listed-key-rejected", "relative key %s of %s is not described", rel, k)
+		}
+		if v := checkKeyWritten(k, key, mustAccept, mustReject); v != nil {
+			return v
 		}
 	case "lib":
 		pk, err := op.ParseKey(k)
@@ -297,4 +300,43 @@ func TestC13(t *testing.T) {
 		r.Check(t, checkC13(c), "c13", c)
 	}
 	r.MarkExhaustive("42 spellings [A-G][#b]?m? x {info key describe, op.NewScale}; info key list")
+}
+
+// checkKeyWritten: the same key on the way into a file. `crd write --key K` states the key's signature (sf = sharps,
+// or minus flats; mi = mode) for a supported key and refuses a spelling that would need more than seven accidentals.
+func checkKeyWritten(k string, key theory.Key, mustAccept, mustReject bool) *Violation {
+	wr := Run{Argv: []string{"write", "--key", k}, Stdin: oneChordDoc("")}.Exec()
+	if v := cleanOutcome(wr); v != nil {
+		return v
+	}
+	if wr.Exit != 0 {
+		if mustAccept {
+			return vio("listed-key-not-written", "`crd write --key %s` fails: %s", k, firstLines(wr.Stderr, 2))
+		}
+		return nil
+	}
+	if mustReject {
+		return vio("impossible-key-written", "`crd write --key %s` succeeds although %s would need %d accidentals", k, k, key.Sig())
+	}
+	_, song, err := decode(wr.Stdout)
+	if err != nil || len(song.Tracks) == 0 {
+		return vio("not-smf", "crd write --key %s: %v", k, err)
+	}
+	mi := 0
+	if key.Minor {
+		mi = 1
+	}
+	n := 0
+	for _, e := range song.Tracks[0] {
+		if e.IsMeta(0x59) && len(e.Data) == 2 {
+			n++
+			if int(int8(e.Data[0])) != key.Sig() || int(e.Data[1]) != mi {
+				return vio("written-signature", "`crd write --key %s` states sf=%d mi=%d, the key has sf=%d mi=%d", k, int8(e.Data[0]), e.Data[1], key.Sig(), mi)
+			}
+		}
+	}
+	if n != 1 {
+		return vio("written-signature", "`crd write --key %s` states %d key signatures", k, n)
+	}
+	return nil
 }
